@@ -115,6 +115,68 @@ theorem canLoad_truthful (base : Nat → Bool) (k : KSt) (n : Nat) (h : KCoheren
           simp only [this] at hm
           exact h.2 m a hm
 
+/-- every answer of a whole run of `can_load` calls is the backend's -/
+theorem canLoadRun_truthful (base : Nat → Bool) (ns : List Nat) (k : KSt) (h : KCoherent base k) :
+    (canLoadRun base k ns).1 = ns.map base := by
+  induction ns generalizing k with
+  | nil => rfl
+  | cons n ns ih =>
+    have hs := canLoad_truthful base k n h
+    simp only [canLoadRun, List.map_cons, hs.1, ih _ hs.2]
+
+/-- **the wrapper never repeats a lookup**: over a whole run, whatever names are asked and however often, the wrapped backend is
+    asked at most once per name, never for a name already in the cache, and never at all when there is a listing -/
+theorem canLoadRun_asks_once (base : Nat → Bool) (ns : List Nat) (k : KSt) :
+    (canLoadRun base k ns).2.Nodup ∧
+    ∀ m ∈ (canLoadRun base k ns).2, k.cache.lookup m = none ∧ k.listing = none ∧ m ∈ ns := by
+  induction ns generalizing k with
+  | nil => simp [canLoadRun]
+  | cons n ns ih =>
+    obtain ⟨listing, cache⟩ := k
+    simp only [canLoadRun]
+    cases listing with
+    | some ks =>
+      have hk : (canLoad base ⟨some ks, cache⟩ n).1 = ⟨some ks, cache⟩ := by simp [canLoad]
+      have := ih ⟨some ks, cache⟩
+      simp only [consults, Option.isNone_some, Bool.false_and, Bool.false_eq_true, ↓reduceIte, hk]
+      refine ⟨this.1, fun m hm => ?_⟩
+      have := (this.2 m hm).2.1
+      simp at this
+    | none =>
+      cases hc : cache.lookup n with
+      | some a =>
+        have hk : (canLoad base ⟨none, cache⟩ n).1 = ⟨none, cache⟩ := by simp [canLoad, hc]
+        have := ih ⟨none, cache⟩
+        simp only [consults, hc, Option.isNone_some, Bool.and_false, Bool.false_eq_true, ↓reduceIte, hk]
+        exact ⟨this.1, fun m hm => ⟨(this.2 m hm).1, trivial, by simp [(this.2 m hm).2.2]⟩⟩
+      | none =>
+        have hk : (canLoad base ⟨none, cache⟩ n).1 = ⟨none, (n, base n) :: cache⟩ := by simp [canLoad, hc]
+        have := ih ⟨none, (n, base n) :: cache⟩
+        simp only [consults, hc, Option.isNone_none, Bool.and_self, ↓reduceIte, hk]
+        have hn : n ∉ (canLoadRun base ⟨none, (n, base n) :: cache⟩ ns).2 := by
+          intro hmem
+          have := (this.2 n hmem).1
+          simp [List.lookup_cons] at this
+        refine ⟨List.nodup_cons.mpr ⟨hn, this.1⟩, fun m hm => ?_⟩
+        rcases List.mem_cons.mp hm with rfl | hm'
+        · exact ⟨hc, trivial, by simp⟩
+        · have h3 := this.2 m hm'
+          have hmn : m ≠ n := fun e => hn (e ▸ hm')
+          have hb : (m == n) = false := by simpa using hmn
+          have h4 := h3.1
+          simp only [List.lookup_cons, hb] at h4
+          exact ⟨h4, trivial, by simp [h3.2.2]⟩
+
+/-- so the number of backend lookups of a run is at most the number of distinct names asked -/
+theorem canLoadRun_lookups_le (base : Nat → Bool) (ns : List Nat) (k : KSt) :
+    (canLoadRun base k ns).2.length ≤ ns.eraseDups.length := by
+  have h := canLoadRun_asks_once base ns k
+  have hsub : (canLoadRun base k ns).2 ⊆ ns.eraseDups := fun m hm => List.mem_eraseDups.mpr (h.2 m hm).2.2
+  exact h.1.length_le_of_subset hsub
+
+example : canLoadRun (fun n => n % 2 == 0) ⟨none, []⟩ [4, 5, 4, 4, 5, 6] = ([true, false, true, true, false, true], [4, 5, 6]) := by decide
+example : (canLoadRun (fun n => n % 2 == 0) ⟨some [4, 6], []⟩ [4, 5, 4]).2 = [] := by decide
+
 /-! ### not vacuous -/
 example : run .failed (initSt none) [.isFailed, .isLocked, .isFailed] = [true, true, true] := by decide
 example : run .held (initSt (some true)) [.isFailed, .isLocked] = [false, true] := by decide
